@@ -1066,6 +1066,9 @@ pub fn merge(id: &str, partials: &[PathBuf], driver_notes: &Value, evidence_path
             rule = j["rule"].as_str().unwrap_or("").to_string();
         }
         level = j["level"].as_str().unwrap_or("exploration").to_string();
+        if !["exploration", "fault_enumeration", "model_checking", "proof", "translation_validation", "other"].contains(&level.as_str()) {
+            level = "exploration".into();
+        }
         for a in j["assumptions"].as_array().into_iter().flatten() {
             let a = a.as_str().unwrap_or("").to_string();
             if !assumptions.contains(&a) {
